@@ -122,12 +122,11 @@ func ForEach(generate GenerateFunc, mapper ForEachFunc, opts ...Option) {
 		case _, ok := <-collector:
 			if !ok {
 				// 加工者结束前已记录的 panic 不能丢失
-				select {
-				case v := <-panicChan.channel:
-					panic(v)
-				default:
-					return
+				if panicChan.recorded() {
+					panic(<-panicChan.channel)
 				}
+
+				return
 			}
 		}
 	}
@@ -250,11 +249,10 @@ func mapReduceWithPanicChan(source <-chan any, panicChan *onceChan, mapper Mappe
 		panic(v)
 	case v, ok := <-output:
 		// 输出产生前已记录的 panic 优先于输出
-		select {
-		case p := <-panicChan.channel:
+		if panicChan.recorded() {
+			p := <-panicChan.channel
 			drain(output)
 			panic(p)
-		default:
 		}
 
 		if err := retErr.Load(); err != nil {
@@ -368,6 +366,12 @@ type onceChan struct {
 // 不必等待调用方读取（调用方可能已经返回，无缓冲时该协程会永久阻塞）。
 func newOnceChan() *onceChan {
 	return &onceChan{channel: make(chan any, 1)}
+}
+
+// recorded 报告是否已有 panic 被记录。记录者赢得 CAS 后才写入通道，
+// 两步之间通道仍为空，因此不能只靠非阻塞读取来判断；记录后的写入不会阻塞，读取方可以放心等待。
+func (c *onceChan) recorded() bool {
+	return atomic.LoadInt32(&c.wrote) == 1
 }
 
 func (c *onceChan) write(v any) {
